@@ -99,7 +99,8 @@ func projectBehaviour(states []*tla.BehState, pcase *pipeCase, hchan []string) *
 		}
 		b.plan = append(b.plan, st)
 	}
-	for k := 1; k < len(states); k++ {
+	returned := false
+	for k := 1; k < len(states) && !returned; k++ {
 		o, n := states[k-1], states[k]
 		opc, npc := fnStrings(o.Get("pc")), fnStrings(n.Get("pc"))
 		oit := fnInts(o.Get("item"))
@@ -197,6 +198,7 @@ func projectBehaviour(states []*tla.BehState, pcase *pipeCase, hchan []string) *
 					add("main.wait.post", "", nil)
 				} else if from == "cancel" {
 					add("main.return", "", nil)
+					returned = true // what the goroutines do while winding down after the return is not forced
 				}
 			}
 		}
@@ -289,7 +291,7 @@ func simulatedSchedules(r *evid.Run, pool *wproto.Pool, cfgs []string, num int) 
 					return
 				}
 				forced++
-				doValidate := forced%4 == 0
+				doValidate := forced%4 == 0 || os.Getenv("VERIF_DEBUG") != ""
 				mu.Unlock()
 				checkPipeReply(r, &pc, rq, rp, cancelled)
 				// the forced run reached the model's final result (nil-ness; the ctx/err distinction when nothing failed)
